@@ -21,21 +21,22 @@ import (
 	"strconv"
 	"strings"
 	"sync"
+	"syscall"
 	"time"
 )
 
 type Meta struct {
-	Rule        string   `json:"rule"`
-	Assumptions []string `json:"assumptions"`
-	NeedsCLI    bool     `json:"needs_cli"`
-	Race        bool     `json:"race"`     // build the harness with -race
-	RaceCLI     bool     `json:"race_cli"` // additionally build a -race goawk binary
-	Shards      int      `json:"shards"`
-	QuickTimeoutS    int `json:"quick_timeout_s"`
-	ThoroughTimeoutS int `json:"thorough_timeout_s"`
-	CHelper     bool     `json:"c_helper"`
-	MemLimitMB  int      `json:"mem_limit_mb"` // address-space limit of each worker (default 12000, 0 with -race): exhaustion is a Go fatal error instead of a machine-wide OOM kill
-	OOMIsCrash  bool     `json:"oom_is_crash"` // memory exhaustion of a worker counts as a crash of the code under test (C02); otherwise the run is inconclusive
+	Rule             string   `json:"rule"`
+	Assumptions      []string `json:"assumptions"`
+	NeedsCLI         bool     `json:"needs_cli"`
+	Race             bool     `json:"race"`     // build the harness with -race
+	RaceCLI          bool     `json:"race_cli"` // additionally build a -race goawk binary
+	Shards           int      `json:"shards"`
+	QuickTimeoutS    int      `json:"quick_timeout_s"`
+	ThoroughTimeoutS int      `json:"thorough_timeout_s"`
+	CHelper          bool     `json:"c_helper"`
+	MemLimitMB       int      `json:"mem_limit_mb"` // address-space limit of each worker (default 12000, 0 with -race): exhaustion is a Go fatal error instead of a machine-wide OOM kill
+	OOMIsCrash       bool     `json:"oom_is_crash"` // memory exhaustion of a worker counts as a crash of the code under test (C02); otherwise the run is inconclusive
 }
 
 type KnownFinding struct {
@@ -181,6 +182,12 @@ func main() {
 	work := filepath.Join(root, ".work", lid)
 	if repo != "/repo" {
 		work = filepath.Join(root, ".work", lid+"-alt")
+	}
+	// one run per work directory at a time: a second invocation of the same check waits for the first
+	os.MkdirAll(filepath.Join(root, ".work"), 0o755)
+	if lf, err := os.OpenFile(work+".lock", os.O_CREATE|os.O_RDWR, 0o644); err == nil {
+		syscall.Flock(int(lf.Fd()), syscall.LOCK_EX)
+		defer lf.Close()
 	}
 	os.RemoveAll(work)
 	os.MkdirAll(filepath.Join(work, "tmp"), 0o755)
